@@ -115,7 +115,13 @@ func loadProgram(o LoadOpts) (*Program, error) {
 	for path, lp := range all {
 		for _, f := range lp.CompiledGoFiles {
 			if filepath.Base(f) == "zz_contracts_verif.go" {
-				sf, err := parseSpecFile(f)
+				var sf *SpecFile
+				var err error
+				if src, ok := o.Overlay[f]; ok {
+					sf, err = parseSpecSource(f, src)
+				} else {
+					sf, err = parseSpecFile(f)
+				}
 				if err != nil {
 					return nil, err
 				}
